@@ -520,8 +520,8 @@ def run(ctx):
         # assertions on stamp flags in update_tail_stamp CAN fail under the C++ model - a stale tail->next next to a fresh NotInList stamp - with
         # no consequence for TailSafe; they are checked in the SC runs only.)
         INV_SQ = ['TailSafe', 'NoNullDeref']
-        jobs.append(lambda: tlc_mc(ctx, 'ra_stampitqueue', 'StampItQueue_RA', sq_ra, invariants=INV_SQ, view='mcview', constraints=['MsgBound8'], workers=6, tmo=1500,
-                                   extra_files={'StampItQueue_RA.tla': modq}))
+        jobs.append(lambda: tlc_mc(ctx, 'ra_stampitqueue', 'StampItQueue_RA', sq_ra, invariants=INV_SQ, view='mcview', constraints=['MsgBound8'], workers=8, tmo=240 if q else 3000,
+                                   extra_files={'StampItQueue_RA.tla': modq}))    # several million states when complete: partial in the quick tier
         jobs.append(lambda: tlc_mc(ctx, 'ra_toggle_stampitqueue_own_next_rlx', 'StampItQueue_RA', sq_ra, invariants=INV_SQ, view='mcview', constraints=['MsgBound8'], workers=4,
                                    expect='violation', tmo=1500,
                                    extra_files={'StampItQueue_RA.tla': toggle_module('StampItQueue', tabq, {'r_ldnext': 'rlx', 'r_marknext': 'rlx', 'r_marknextf': 'rlx', 'f_ldnextb': 'rlx'}, XQ)}))
